@@ -205,6 +205,9 @@ def run_cum(case):
     res = lib(lambda: getattr(a, op)(**kw), what=what, sig=sig)
     _check_axes(res, spec["dims"], spec["labels"], what, sig)
     _axes_kept(res, a, range(len(spec["dims"])), what, sig)
+    if "axis" in kw:
+        res_p = lib(lambda: getattr(a, op)(kw["axis"], False), what=what + " [axis, skipna by position]", sig=sig)
+        core.expect_equal_arrays(res_p, res, what + " [positional vs keyword call]", sig=sig)
     with np.errstate(all="ignore"):
         exp = getattr(np, op)(vals, axis=ax)       # NumPy's own result, accumulator type included
     _same_values(res.values, exp, what, sig, tol=(op == "cumprod" and vals.dtype.kind == "f"))
